@@ -145,10 +145,13 @@ def rule_key(ctx, rep):
     m = ctx.mod("bp", "flat")
     kc = [(f, c) for f in m.defined() for c in pat.calls(f, "pthread_key_create")]
     pat.require(kc, "bp: pthread_key_create")
+    n = None
     for f, c in kc:
-        rep.check(ir.expr(f, c.args[1]) == ("fn", "urcu_bp_thread_exit_notifier"), "C15.key", "destructor", "thread-exit destructor = urcu_bp_thread_exit_notifier",
-                  "pthread key destructor is %s" % ir.expr_str(ir.expr(f, c.args[1])), [c.where()])
-    n = m.fn("urcu_bp_thread_exit_notifier")
+        d = ir.expr(f, c.args[1])
+        rep.check(d[0] == "fn" and m.fn(d[1]) is not None, "C15.key", "destructor", "the pthread key has a destructor defined in the library (%s)" % (d[1] if d[0] == "fn" else "?"),
+                  "pthread key destructor is %s" % ir.expr_str(d), [c.where()])
+        if d[0] == "fn":
+            n = m.fn(d[1])
     if n is None:
         raise Broken("bp: exit notifier vanished")
     rep.touch(n)
